@@ -1470,6 +1470,11 @@ def gen_C17(rng, tier):
         h.ops.append("%s,%s=quorem %s %s" % (h.newu(), h.newu(), f0, g2))
         h.ops.append("%s=gcd %s %s" % (h.newu(), f0, g2))
         h.ops.append("embed %s @2 0" % f0 if rng.random() < 0.2 else "obs %s" % f0)
+        # Equal across rings is false, never an error; embedding into a ring over another ring object is refused
+        h.ops.append("eq %s %s" % (f0, g2)); h.ops.append("eq %s %s" % (g2, f0))
+        if rng.random() < 0.5:
+            c2 = h.newu(); h.ops.append("%s=coefs@2 %s" % (c2, "1/1")); c0 = h.newu(); h.ops.append("%s=coefs@0 %s" % (c0, "1/1"))
+            h.ops.append("eq %s %s" % (c0, c2))
         if quot:
             # a ring and its own quotient ring (they share the underlying ring object) are different rings
             f1 = h.upoly(deg=2, ring=1)
@@ -1505,6 +1510,9 @@ def gen_C17(rng, tier):
         h.ops.append("%s,%s=quorem %s %s" % (h.newb(), h.newb(), q0, q2))
         h.ops.append("%s=ideal@0 %s" % (h.newi(), zq))
         h.ops.append("%s=ideal@0 %s %s" % (h.newi(), q0, q2))
+        h.ops.append("eq %s %s" % (q0, q2)); h.ops.append("eq %s %s" % (q2, q0))
+        h.ops.append("%s=embed@2 %s:%d" % (h.newb(), q0, rng.randrange(2)))
+        h.ops.append("%s=embed@0 %s:%d" % (h.newb(), q2, rng.randrange(2)))
         if rng.random() < 0.5:
             # a good ideal of ring 0, then: quotient of the quotient ring (ring 1), quotient of a foreign ring (ring 2)
             one_ = h.elem("1")
